@@ -35,7 +35,7 @@ def campaign(ev, bins, jobs, tag):
         if os.path.exists(out):
             os.remove(out)
         binp = cbin(b) if fl == "C" else fbin(b)
-        rc, o, dt = conc.run_harness(binp, [out, ev.seed * 1000 + k, tier(), mode], topo=topo, timeout=900)
+        rc, o, dt = conc.run_harness(binp, [out, ev.seed * 1000 + k, tier(), mode], topo=topo, timeout=(600 if tier() == 'thorough' else 240))
         return j, out, rc, o
     with cf.ThreadPoolExecutor(max_workers=8) as ex:
         results = list(ex.map(job, list(enumerate(alljobs))))
@@ -101,7 +101,7 @@ def report(ev, vd, tr, res, hangs, mine):
             rs["wl"], rs["threads"], rs["cd"], rs["mode"], rs["topo"], json.dumps(last), reason, json.dumps(exn[-5:-1])[:300]),
             dict(reset=rs, execution=exn[-400:]))
     for (b, mode, topo) in hangs:
-        if mine == "C01":
+        if True:   # a loop that never returns is reported by whichever for_each check observes it
             vd.violation(dict(component="for_each", op="hang-" + mode, bin=b),
                          "for_each harness %s (%s, topology %s) did not return within the bound" % (b, mode, topo), dict(bin=b, mode=mode, topo=topo))
     ev.cov["rejections_belonging_to_other_properties"] = other
